@@ -118,7 +118,12 @@ def rules(model: Model, tier: str) -> List[RuleResult]:
     # sesquilinear roles: _dot conjugates its FIRST argument; within one solver a vector is either always the conjugated side or never
     DT = RuleResult(PROP, "C01-D", "inner products: a vector keeps its side (conjugated first argument / plain second argument) in every _dot of a solver", min_instances=3)
     _dot_roles(model, DT)
-    return [W, W2, P, Wp, T, S, B, Z, N, E, _R11, SH, HF, ADJ, DT, *_sub]
+    # the products solve asks of a composed operator (rmv / rmm in the normal-equation path, .H in every backward) fall back to the public
+    # products of the operands: a private product called without the capability flag raises NotImplementedError for matrix-free operands
+    from .c11 import _fallback
+    FB = RuleResult(PROP, "C01-F", "composed operators use an operand's optional private products only under its capability flag (shared with C11-F)", min_instances=5)
+    _fallback(model, FB)
+    return [W, W2, P, Wp, T, S, B, Z, N, E, _R11, SH, HF, ADJ, DT, FB, *_sub]
 
 
 def _dot_roles(model: Model, DT: RuleResult):
